@@ -8,7 +8,7 @@
 (* two of these bytes (GETC, IN), every character (OUT), two register fills    *)
 (* and three condition codes, under real and virtual traps, and checks the     *)
 (* contract (MachineProps!TrapContract) at the return.                         *)
-EXTENDS MachineProps, Json, IOUtils
+EXTENDS MachineProps, Json, IOUtils, FiniteSets, TLC
 
 CONSTANT MaxLen
 OsRec == ndJsonDeserialize(IOEnv.OSIMG)[1]
@@ -66,6 +66,11 @@ Init == /\ phase = "call"
 Next == phase = "call" /\ phase' = "ret" /\ UNCHANGED <<vect, init>>
 Spec == Init /\ [][Next]_vars
 
+\* RP: the start states of one register fill and condition code, for the harness to run on the real simulator
+\* (`lc3v replay ostraps`): vector, real traps or not, R0, the keyboard queue, the words at x4000
+StrWords == LET as == { a \in DOMAIN init.memw : a >= STR } IN [k \in 1..Cardinality(as) |-> init.memw[STR + k - 1].v]
+Emit == (phase = "ret" /\ init.reg[2].v = 2 /\ init.psr = 32770) =>
+          PrintT(<<"HIST", <<vect, IF init.flags.real THEN 1 ELSE 0, init.reg[1].v, Len(init.kbd)>> \o init.kbd \o StrWords>>)
 Contract ==
   phase = "ret" =>
     LET s0 == [init EXCEPT !.mark = MarkOf(init)]
